@@ -59,6 +59,20 @@ func (d deviation) apply(p *ref.Peer, r *mon.RNG, pki *tlsPKI, changed *bool) {
 		*changed = true
 		return
 	}
+	if d.kind == "coalesce-with-finished-and-skip-ccs" {
+		// the message of this step travels in one record with the peer's Finished, no ChangeCipherSpec is ever sent (so the
+		// correctly computed Finished goes out unprotected), and the peer stops sending right after it
+		p.Hold = map[string]bool{d.step: true}
+		p.CloseAfter = ref.StClientFinished
+		p.Mutate = func(step string, def []ref.Item) []ref.Item {
+			if step == ref.StClientCCS {
+				return nil
+			}
+			return def
+		}
+		*changed = true
+		return
+	}
 	inner := d.mutator(p, r, pki)
 	p.Mutate = func(step string, def []ref.Item) []ref.Item {
 		out := inner(step, def)
@@ -536,6 +550,9 @@ func runC15(c *Ctx) {
 			add := func(kind string, a, b int) { jobs = append(jobs, job{t, deviation{st, kind, a, b}}) }
 			add("omit", 0, 0)
 			add("repeat", 0, 0)
+			if st == ref.StClientKeyExchange || st == ref.StCertificateVerify {
+				add("coalesce-with-finished-and-skip-ccs", 0, 0)
+			}
 			if st == ref.StCertificate || st == ref.StClientCertificate {
 				for v := 0; v < 6; v++ {
 					add("certs", v, 0)
@@ -688,6 +705,7 @@ func runC15(c *Ctx) {
 		}
 	})
 	runC15TLS(c, pki)
+	runC15Blind(c, pki)
 }
 
 func verClass(v int) string {
